@@ -112,6 +112,8 @@ def gen_case(rng, pid, tier):
             for lvl in rng.sample(['server', 'rack', 'pod', 'cell'], rng.randint(1, 2)):
                 # (0 = "never under a node of this level": servers hang off buckets of any level)
                 lim[lvl] = rng.randint(1, 3) if rng.random() < 0.9 else 0
+        if rows and pid == 'C04' and _random0.Random(repr(rng.getstate()[1][:4]) + 'rows-lim%d' % aff).random() < 0.7:
+            lim = {'rack': 1}           # one per rack: binds on the row of racks as well as on each rack
         aff_limits[aff] = lim
     ops = []
     napp = [0]
